@@ -18,7 +18,7 @@ use std::time::{Duration, Instant};
 // operations
 // ---------------------------------------------------------------------------
 
-const INPUTS: [&str; 12] = [
+const INPUTS: [&str; 18] = [
     "abc",
     "Abc",
     "\u{e9}\u{3000}\u{ff22}",
@@ -31,6 +31,14 @@ const INPUTS: [&str; 12] = [
     "a\u{ff22}\u{ff76}", // width-mapped characters from the middle of the mapping table
     "\u{e0}",             // the oldest entry of the warm-up history
     "\u{b5}",             // a second HasCompat letter in the same 64-code-point block as U+00AA
+    // 12..17: characters whose code points agree in their low 8 / 10 / 12 bits but differ in every
+    // per-code-point attribute (direction, case): two entries of any direct-mapped table
+    "\u{5d0}",  // 12  Hebrew alef (R)
+    "\u{4d0}",  // 13  = U+05D0 xor 2^8: Cyrillic capital (L, cased)
+    "\u{1d0}",  // 14  = U+05D0 xor 2^10: Latin small letter (L)
+    "\u{15d0}", // 15  = U+05D0 xor 2^12: Canadian syllabics (L)
+    "\u{c4}",   // 16  A with diaeresis
+    "\u{1ec4}", // 17  = U+00C4 + 30 * 2^8: E with circumflex and tilde
 ];
 
 /// input number i: the fixed ones above, or (100 + k) = the k-th nickname of a call history
@@ -733,6 +741,16 @@ fn scenarios(thorough: bool) -> Vec<(String, Vec<Vec<Call>>, usize)> {
     // two HasCompat letters of the same 64-code-point block looked up in opposite orders, twice
     // (a memo word shared by neighbouring code points; the second calls observe what the race left)
     v.push(("2x2-block".into(), vec![vec![(P::Ucp, O::Prepare, 8), (P::Ucp, O::Prepare, 11)], vec![(P::Ucp, O::Prepare, 11), (P::Ucp, O::Prepare, 8)]], unbounded));
+    // aliasing code points looked up in opposite orders, twice (an entry written in two steps can be
+    // seen half-updated; the second calls observe what the race left behind)
+    let alias: Vec<(&str, P, usize, usize)> = if thorough {
+        vec![("2x2-alias8", P::Ucp, 12, 13), ("2x2-alias10", P::Ucp, 12, 14), ("2x2-alias12", P::Ucp, 12, 15), ("2x2-alias-case", P::Ucm, 16, 17)]
+    } else {
+        vec![("2x2-alias10", P::Ucp, 12, 14), ("2x2-alias-case", P::Ucm, 16, 17)]
+    };
+    for (name, p, a, b) in alias {
+        v.push((name.into(), vec![vec![(p, O::Enforce, a), (p, O::Enforce, b)], vec![(p, O::Enforce, b), (p, O::Enforce, a)]], unbounded));
+    }
     // non-initial state: a history of K distinct calls through the static API, then two threads
     // repeat two of the oldest calls of that history
     for k in if thorough { vec![8usize, 24, 40] } else { vec![24usize] } {
